@@ -484,12 +484,12 @@ pub fn run_property(def: &PropDef, tier: Tier, seed: u64, verif_root: &Path) -> 
                 None => infra.push(format!("probe {} names unknown sub {sub}", path.display())),
                 Some(s) => {
                     // schedule-dependent probes are retried a few times until they show the finding
-                    let mut r = s.replay(&case, tier, &Known::empty()).0;
+                    let mut r = s.replay(&case, tier, &Known::for_probe()).0;
                     for _ in 0..e.retries {
                         if r.is_err() {
                             break;
                         }
-                        r = s.replay(&case, tier, &Known::empty()).0;
+                        r = s.replay(&case, tier, &Known::for_probe()).0;
                     }
                     match r {
                         Err(f) if f.sig == e.key => {
@@ -708,7 +708,7 @@ pub fn replay_file(defs: &[PropDef], path: &Path, verif_root: &Path) -> i32 {
     let known = Known::load(&verif_root.join("KNOWN_FINDINGS.txt"), def.id);
     // probes of known findings are replayed without exclusions; everything else as in generation
     let is_probe = known.open_entries().iter().any(|e| verif_root.join(&e.probe) == path || Path::new(&e.probe) == path);
-    let (r, stats) = if is_probe { s.replay(&case, Tier::Quick, &Known::empty()) } else { s.replay(&case, Tier::Quick, &known) };
+    let (r, stats) = if is_probe { s.replay(&case, Tier::Quick, &Known::for_probe()) } else { s.replay(&case, Tier::Quick, &known) };
     match r {
         Ok(()) => {
             println!("replay passed: property={prop} sub={sub} labels={:?}", stats.labels);
